@@ -4,6 +4,8 @@ ENGINES = [
      "serves_properties": ["C06", "C08"]},
     {"name": "E4", "path": "mc/props/c20.py", "kind_free_text": "fault enumeration: every fault kind at every conversion index x every pre-existing on-disk state; directory subsets x modes",
      "serves_properties": ["C20"]},
+    {"name": "E3", "path": "mc/engine/choice.py + mc/instr/setorder.py", "kind_free_text": "stateless deviation-bounded choice exploration: the iteration order of every set created in antiSMASH code (AST import hook) is a choice; default run, then every single deviation, pairs, ...",
+     "serves_properties": ["C13", "C17"]},
     {"name": "E1", "path": "mc/engine/core.py", "kind_free_text": "bounded exhaustive input enumeration of the real functions against set-of-bases / truth-table reference models, sharded over processes",
      "serves_properties": ["C01", "C02", "C03", "C04", "C05", "C07", "C08", "C09", "C14", "C15", "C16", "C19"]},
 ]
@@ -100,4 +102,11 @@ CHECKS = {
                      "the bytes and mtime of an existing file must be unchanged; a fault-free write must produce the complete JSON. "
                      "prepare_output_directory is run on every subset of an 8-entry content menu x {fresh, reuse} x {absent, present, path is a file}.",
                 note="Faults come from harness-supplied ModuleResults subclasses; hidden directory entries outside the alphabet; whole-pipeline ordering not runnable offline."),
+    "C13": dict(engine="E3+E1", level="model_checking", ref="DESIGN.md 5/C13",
+                technique="stateless exploration of all set-iteration orders (import hook makes them explicit choices) x bounded exhaustive enumeration of hit multisets; post-conditions + differential across orders",
+                text="Every multiset of <=3-5 hits from a boundary menu is refined by the real refine_hmmscan_results in both modes under every iteration "
+                     "order of the hit set (all n! for n<=4); hmmer.remove_overlapping and the detection filters are run on every permutation of their "
+                     "input lists and every order of their internal sets. Post-conditions of the statement (sorted, no overlap beyond the margin, outputs are "
+                     "inputs or legitimate merges, every drop is excused) and 'one result for all orders' are checked.",
+                note="Set-order hook owns all sets created in antiSMASH code; profile lengths 40/100 put the 20% margin, 1.5x span and 50%/33% completeness thresholds on menu boundaries; one open finding (C13-F1)."),
 }
